@@ -174,9 +174,14 @@ def lawAppendEach (gap : UInt8) (b a : ObjV) (runs : List (List QL)) : Why :=
     match b.rows[i]?, a.rows[i]? with
     | some rb, some ra =>
       let run := runs.getD i []
-      let ext := if b.kind == "multi" then run else run ++ List.replicate (mx - run.length) ⟨gap, 0⟩
-      check (ra.cells == rb.cells ++ ext.map (shownAs rb.q) &&
-             ra.start == rb.start && ra.«end» == rb.«end» + ext.length && sameMeta rb ra)
+      -- the run itself (letters and qualities), then for column-stored alignments gap letters
+      -- up to the longest run (the quality of the padding is not specified)
+      let npad := if b.kind == "multi" then 0 else mx - run.length
+      let tail := ra.cells.drop rb.cells.length
+      check (ra.cells.take rb.cells.length == rb.cells &&
+             tail.take run.length == run.map (shownAs rb.q) &&
+             (tail.drop run.length).map (·.L) == List.replicate npad gap &&
+             ra.start == rb.start && ra.«end» == rb.«end» + (run.length + npad) && sameMeta rb ra)
         s!"AppendEach-row-not-extended-exactly row={i}"
     | _, _ => some "append-shape"
 
@@ -193,9 +198,14 @@ def lawFlush (b a : ObjV) (wh : Nat) (fill : UInt8) : Why :=
     | some rb, some ra =>
       let st := if wh % 2 == 1 then b.start else rb.start
       let en := if (wh / 2) % 2 == 1 then b.«end» else rb.«end»
-      let pad : QL := shownAs rb.q ⟨fill, 0⟩
+      let nl := (rb.start - st).toNat
+      let nr := (en - rb.«end»).toNat
+      -- fill letters on both sides (their quality is not specified), the original letters
+      -- and qualities in between, at their old positions
       check (ra.start == st && ra.«end» == en && sameMeta rb ra &&
-             ra.cells == List.replicate (rb.start - st).toNat pad ++ rb.cells ++ List.replicate (en - rb.«end»).toNat pad)
+             (ra.cells.take nl).map (·.L) == List.replicate nl fill &&
+             (ra.cells.drop nl).take rb.cells.length == rb.cells &&
+             ((ra.cells.drop nl).drop rb.cells.length).map (·.L) == List.replicate nr fill)
         s!"Flush-row-not-padded-in-place row={i}"
     | _, _ => some "flush-shape"
 
